@@ -224,6 +224,18 @@ func genGroup(prop string, seed uint64) *Plan {
 		g.P.Actors = append(g.P.Actors, sc)
 		churn.Ops = append(churn.Ops, Op{Kind: "sleep", A: g.rng(20000, 40000)})
 	} else {
+		if prop == "C07" && g.pct(20) && nslots >= 2 {
+			// directed: a cooperative member is closed (or leaves) from
+			// another goroutine while its revoke callback for partitions
+			// it is giving up to a newcomer is still running
+			k["mode"] = g.pick(1, 1, 2)
+			k["revoke_sleep_ms"] = g.pick(2000, 5000)
+			k["heartbeat_ms"] = 300
+			delete(k, "block_rebalance")
+			delete(k, "process_ms")
+			churn.Ops = append(churn.Ops, Op{Kind: "sleep", A: g.pick(2000, 4000)}, Op{Kind: "join", A: 1},
+				Op{Kind: "sleep", A: g.pick(300, 800, 1500, 2500)}, Op{Kind: g.pickS("close", "leave"), A: 0}, Op{Kind: "sleep", A: 3000})
+		}
 		for i := 0; i < nchurn; i++ {
 			sl := g.rng(0, int64(nslots)-1)
 			switch x := g.R.Intn(10); {
